@@ -432,6 +432,9 @@ type c07Integ struct {
 	// SlowPoll: the library polls every 250 ms instead of every 4 ms (a cluster map change is then learnt between two
 	// poll rounds, as it practically always is with production intervals)
 	SlowPoll bool `json:"slow_poll,omitempty"`
+	// FailoverForm: a poll naming another vbUUID than the copy's current one (the library asks every copy of a vBucket with
+	// the vbUUID it saw last) is answered in OBSERVE_SEQNO's hard-failover form instead of the ordinary one
+	FailoverForm bool `json:"failover_form,omitempty"`
 }
 
 func c07ExecInteg(sc c07Integ) (string, map[string]bool) {
@@ -454,6 +457,7 @@ func c07ExecInteg(sc c07Integ) (string, map[string]bool) {
 	e.cfg.RollbackMitigation.ConfigWatchInterval = 10 * time.Millisecond
 	var hookN atomic.Int64
 	c.Lock()
+	c.ObserveFailoverForm = sc.FailoverForm
 	for v := 0; v < numVb; v++ {
 		c.High[uint16(v)] = 1000
 	}
@@ -747,6 +751,12 @@ func c07ExecInteg(sc c07Integ) (string, map[string]bool) {
 			}
 		}
 	}
+	for _, en := range c.Log() {
+		if en.ObsFailoverForm {
+			labels["observe_failover_form_reply"] = true
+			break
+		}
+	}
 	return "", labels
 }
 
@@ -819,6 +829,19 @@ func TestC07_Integration(t *testing.T) {
 			}
 			sc.Steps = append(sc.Steps, c07Step{Vb: vb, Copy: 0, UUID: 0xA1, Persist: base, Feed: int(base) + 4},
 				c07Step{Vb: vb, Copy: rapid.IntRange(1, sc.Replicas).Draw(rt, "trapcopy"), Move: true, UUID: 0xA1, Persist: base + 5, Feed: 1, Epoch: rapid.IntRange(0, 2).Draw(rt, "trapepoch") == 0})
+		}
+		sc.FailoverForm = rapid.Bool().Draw(rt, "failoverform")
+		if sc.FailoverForm && sc.Replicas >= 1 && len(sc.Unassigned) == 0 && !sc.SlowPoll && rapid.IntRange(0, 1).Draw(rt, "failovertrap") == 0 {
+			// directed suffix: the replicas are ahead of the active copy, events up to their position wait; then the active
+			// copy is replaced by one on a NEW history branch that has persisted as much as the replicas (a promoted
+			// replica): the copies disagree on the branch, the waiting events keep waiting
+			vb := rapid.IntRange(0, sc.NVb-1).Draw(rt, "fovb")
+			base := uint64(30 + rapid.IntRange(0, 3).Draw(rt, "fobase"))
+			for k := 1; k <= sc.Replicas; k++ {
+				sc.Steps = append(sc.Steps, c07Step{Vb: vb, Copy: k, UUID: 0xA1, Persist: base + 5})
+			}
+			sc.Steps = append(sc.Steps, c07Step{Vb: vb, Copy: 0, UUID: 0xA1, Persist: base, Feed: int(base) + 4},
+				c07Step{Vb: vb, Copy: 0, UUID: 0xC3, Persist: base + 5, Feed: 1})
 		}
 		journal("C07", "c07integ", sc)
 		d, labels := c07ExecInteg(sc)
